@@ -1855,6 +1855,64 @@ def inline_comprehension_temps(tree, ref_mod):
     return n_done
 
 
+def fold_conditional_appends(tree, ref_mod):
+    """`xs = [a, b]` / `if c: xs.append(e)` / .. / one statement that reads xs once as a call argument - with xs a local the reference
+    function did not have, bound once, and nothing else in between: the read becomes `[a, b, e] if c else [a, b]` (unconditional appends
+    extend the literal).  At most one conditional append is folded (two would need four alternatives)"""
+    from . import localnames
+    n_done = 0
+    for q, fn in localnames._numbered(tree):
+        ref = ref_mod.get(q)
+        if not ref:
+            continue
+        ref_names = {n for n, _ in ref}
+        body = fn.body
+        for i, st in enumerate(body):
+            if not (isinstance(st, ast.Assign) and len(st.targets) == 1 and isinstance(st.targets[0], ast.Name) and isinstance(st.value, ast.List)):
+                continue
+            nm = st.targets[0].id
+            if nm in ref_names or sum(1 for x in ast.walk(fn) if isinstance(x, ast.Name) and x.id == nm and isinstance(x.ctx, ast.Store)) != 1:
+                continue
+
+            def is_append(s_):
+                return isinstance(s_, ast.Expr) and isinstance(s_.value, ast.Call) and isinstance(s_.value.func, ast.Attribute) and s_.value.func.attr == "append" \
+                    and isinstance(s_.value.func.value, ast.Name) and s_.value.func.value.id == nm and len(s_.value.args) == 1 and not s_.value.keywords \
+                    and not any(isinstance(x, ast.Name) and x.id == nm for x in ast.walk(s_.value.args[0]))
+            base, cond = list(st.value.elts), None
+            j = i + 1
+            while j < len(body):
+                s_ = body[j]
+                if is_append(s_) and cond is None:
+                    base.append(s_.value.args[0])
+                elif isinstance(s_, ast.If) and not s_.orelse and len(s_.body) == 1 and is_append(s_.body[0]) and cond is None \
+                        and not any(isinstance(x, ast.Name) and x.id == nm for x in ast.walk(s_.test)) \
+                        and not any(isinstance(x, (ast.Call, ast.NamedExpr)) for x in ast.walk(s_.test)):
+                    cond = (s_.test, s_.body[0].value.args[0])
+                else:
+                    break
+                j += 1
+            if j >= len(body) or j == i + 1:
+                continue
+            use = body[j]
+            reads = [x for x in ast.walk(fn) if isinstance(x, ast.Name) and x.id == nm and isinstance(x.ctx, ast.Load)]
+            n_appends = j - (i + 1)
+            in_use = [x for x in ast.walk(use) if isinstance(x, ast.Name) and x.id == nm and isinstance(x.ctx, ast.Load)]
+            if len(reads) != n_appends + 1 or len(in_use) != 1 or not isinstance(use, (ast.Return, ast.Assign, ast.Expr)):
+                continue
+            holder = [c for c in ast.walk(use) if isinstance(c, ast.Call) and any(a is in_use[0] for a in c.args)]
+            if len(holder) != 1 or sum(isinstance(c, ast.Call) for c in ast.walk(use)) != 1:
+                continue
+            lit = ast.List(elts=base, ctx=ast.Load())
+            if cond is not None:
+                lit = ast.IfExp(test=cond[0], body=ast.List(elts=base + [cond[1]], ctx=ast.Load()), orelse=ast.List(elts=list(base), ctx=ast.Load()))
+            holder[0].args[holder[0].args.index(in_use[0])] = ast.copy_location(lit, in_use[0])
+            ast.fix_missing_locations(use)
+            del body[i:j]
+            n_done += 1
+            break
+    return n_done
+
+
 def rename_dead_aliases(tree, ref_mod):
     """`t = s` at the top level of a function body, t a local the reference function did not have and s a local (or parameter) that
     is never read again after this statement: from here on t is just another spelling of s (a helper that was written out keeps
@@ -2455,6 +2513,27 @@ _REDUCE_OPS = {k: v for k, v in _REDUCE_OPS.items() if v is not None}
 
 class _DictComp(ast.NodeTransformer):
     """{k: v for a, b in <literal pairs / literal dict>.items()} -> the dict literal (no condition, literal table)"""
+
+    def _inner_literal(self, n):
+        """`.. for x in (f(c) for c in ("a", "b"))`: a generator over a literal table that only feeds another comprehension is the
+        tuple of its items (evaluated one by one as the outer comprehension asks for them, or all in front: pure attribute reads)"""
+        for g in n.generators:
+            it = g.iter
+            if isinstance(it, (ast.GeneratorExp, ast.ListComp)) and len(it.generators) == 1 and not it.generators[0].ifs and not it.generators[0].is_async:
+                subs = _literal_iter(ast.For(target=it.generators[0].target, iter=it.generators[0].iter, body=[ast.Pass()], orelse=[]))
+                if subs is not None and isinstance(it.generators[0].iter, (ast.Tuple, ast.List)) \
+                        and not any(isinstance(x, (ast.Call, ast.Await, ast.NamedExpr)) and not (isinstance(x, ast.Call) and isinstance(x.func, ast.Name) and x.func.id == "getattr")
+                                    for x in ast.walk(it.elt)):
+                    g.iter = ast.copy_location(ast.Tuple(elts=[_subst(it.elt, m) for m in subs], ctx=ast.Load()), it)
+        return n
+
+    def visit_ListComp(self, n):
+        self.generic_visit(n)
+        return self._inner_literal(n)
+
+    def visit_GeneratorExp(self, n):
+        self.generic_visit(n)
+        return self._inner_literal(n)
 
     def visit_DictComp(self, n):
         self.generic_visit(n)
